@@ -191,6 +191,13 @@ namespace vg
         // area comparison is meaningful (stated domain limit, DESIGN.md C18)
         static const double mpal[] = { 1.0, 2.0, 0.5, 3.0, 7.25, 0.1, 10.0 };
         double sx = mpal[s.weighted({ 100, 30, 30, 30, 26, 20, 20 })], sy = mpal[s.weighted({ 100, 30, 30, 30, 26, 20, 20 })];
+        // overall unit of the coordinates (isotropic: angles are unchanged): millimetres to
+        // hundreds of kilometres - nothing in the statement depends on the unit (seeded change
+        // C18-F: an absolute tolerance on triangle areas)
+        static const double unit[] = { 1.0, 1e-3, 1e3, 1e-5, 1e5 };
+        double gs = unit[s.weighted({ 196, 16, 16, 14, 14 })];
+        sx *= gs;
+        sy *= gs;
         if (shape == 0)
         {
             size_t r = s.range(2, o.mesh_max_side), c = s.range(2, o.mesh_max_side);
@@ -283,8 +290,8 @@ namespace vg
             size_t extra = s.range(1, 3);
             for (size_t i = 0; i < extra; ++i)
             {
-                sp.px.push_back(-5.0 - static_cast<double>(i));
-                sp.py.push_back(-3.0);
+                sp.px.push_back((-5.0 - static_cast<double>(i)) * gs);
+                sp.py.push_back(-3.0 * gs);
             }
         }
         // independent vertex permutation inside each triangle
